@@ -77,8 +77,13 @@ Next == /\ l <= NRec
                 /\ acc' = <<>> /\ cur' = e.case /\ img' = NoImg /\ st' = st
                 /\ IF l = NRec THEN PrintT("STAT " \o ToJson(st)) ELSE TRUE
            ELSE LET f == Eff(e)
+                    drift == IF e.ev = "new" /\ \E i \in 1..Len(e.items) : ~NewExpectedOK(e.bpp, e.w, e.h, e.items[i])
+                             THEN PrintT("DRIFT " \o ToJson([module |-> "EGImage", op |-> "NewT", case |-> e.case,
+                                                             what |-> "expected_data_size differs from the transcribed ImageRaw::new"]))
+                             ELSE TRUE
                     a == acc \o f[1]
                     s2 == [f[3] EXCEPT !.failing_observations = @ + Len(f[1])] IN
+                /\ drift
                 /\ acc' = a /\ cur' = cur /\ img' = f[2] /\ st' = s2
                 /\ IF l = NRec THEN Flush(cur, a) /\ PrintT("STAT " \o ToJson(s2)) ELSE TRUE
         /\ l' = l + 1
